@@ -29,7 +29,7 @@ prop(
          "distinct = (operation, engine reply path read from events, side, prior position direction, outcome).",
     essential=["path:update_position", "path:close_position", "path:liquidation"],
     text="Invariant checked after every transaction of random multi-trader histories with liquidations, reversals, partial closes and injected failures.",
-    note="positions are read from the engine's raw storage so no holder can be missed; trusts cw-multi-test atomicity",
+    note="positions are read from the engine's raw storage so no holder can be missed; trusts cw-multi-test atomicity; thorough tier adds a supplementary Miri leg (8 short histories under the UB/overflow interpreter with this monitor attached, reported under coverage.miri)",
 )
 prop(
     "C03",
@@ -37,10 +37,10 @@ prop(
     technique="conservation checker over balance snapshots + recipient rule on balance deltas, cross-validated against the parsed transfer log",
     design_ref="DESIGN.md §4 C03",
     rule="evaluations = transactions whose pre/post balances of every known account and contract (and cw20 total supply) were compared. R1 total conserved; R2 in engine transactions only sender, engine, "
-         "insurance fund and fee pool may change; R3 a trader liquidated by someone else has zero delta. distinct = (operation, reply path, set of roles whose balance moved with sign).",
-    essential=["liquidations-by-others"],
+         "insurance fund and fee pool may change; R3 a trader liquidated by someone else has zero delta; R4 a transaction sent directly to the insurance fund, a vAMM or the price feed (forged Withdraw / swap calls by owners, traders, strangers included) moves no collateral at all. distinct = (operation, reply path, set of roles whose balance moved with sign).",
+    essential=["liquidations-by-others", "direct-insurance-withdraw-attempts"],
     text="Conservation and recipient whitelist checked on every transaction for native and cw20 collateral, all fee settings.",
-    note="accounts tracked: all actors, all contracts, cw20 supply; a payment to an untracked address shows up as a conservation failure",
+    note="accounts tracked: all actors, all contracts, cw20 supply; a payment to an untracked address shows up as a conservation failure; thorough tier adds a supplementary Miri leg (coverage.miri)",
 )
 prop(
     "C08",
@@ -201,8 +201,8 @@ prop(
     technique="post-condition monitor on caps after position-increasing trades + configuration-bounds invariant after every step under random UpdateConfig sequences",
     design_ref="DESIGN.md §4 C20",
     rule="evaluations = successful opens under a non-zero cap, cap rejections and configuration updates. R1 after a position-increasing open by a non-whitelisted trader: State.open_interest <= cap and |size| <= holding cap; R2 after every step every stored ratio <= 1, maintenance <= initial, TWAP interval in [60, 604800]; "
-         "R3 no registered vAMM with decimals != the engine's. distinct = (increasing, whitelisted, relation to each cap, reply path) and (config op, outcome).",
-    essential=["opens-under-caps", "cap-rejections", "config-updates", "config-updates-rejected", "R3-mismatched-decimals-offered"],
+         "R3 no registered vAMM with decimals != the engine's; R4 a pure increase (fresh position or same-side add) of notional N raises the engine's open interest by exactly N, so the figure the cap bounds tracks exposure. distinct = (increasing, whitelisted, relation to each cap, reply path) and (config op, outcome).",
+    essential=["opens-under-caps", "cap-rejections", "config-updates", "config-updates-rejected", "R3-mismatched-decimals-offered", "R4-pure-increases"],
     text="Caps raised/lowered between trades, whitelist flips, boundary config values (0, 1, 1+1 raw, crossing maintenance/initial).",
     note="open interest is the engine-wide figure the cap is compared with",
 )
